@@ -321,6 +321,20 @@ Definition neutron_scattering (D : ndata) (s : struct) (density natural_density 
       end
   end.
 
+(* the compound given as a Formula OBJECT that carries its own density [own] (from an '@' tag,
+   formula(..., density=), a mixture, or the single-element default):
+   formulas.formula(compound, density=, natural_density=) inherits compound.density only when
+   neither keyword is given; otherwise Formula.__init__ applies the keywords (natural_density wins) *)
+Definition formula_density_args (own density natural_density : option Q) : option Q * option Q :=
+  match density, natural_density with
+  | None, None => (own, None)
+  | _, _ => (density, natural_density)
+  end.
+Definition neutron_scattering_formula (D : ndata) (s : struct) (own density natural_density : option Q)
+           (ws : list wl) : outcome :=
+  neutron_scattering D s (fst (formula_density_args own density natural_density))
+                     (snd (formula_density_args own density natural_density)) ws.
+
 (* ------------------------------------------------------------------ Neutron.scattering / .sld *)
 Definition E24m : Q := 1 # (10 ^ 24).
 
